@@ -18,6 +18,8 @@ import subprocess
 import sys
 
 VERIF = os.path.dirname(os.path.dirname(os.path.abspath(__file__)))
+SEED_OUT = os.environ.get("SEED_OUT", "/tmp/seed-out")   # round 2: SEED_OUT=/tmp/seed2-out SEED_WT=/tmp/seed2-
+SEED_WT = os.environ.get("SEED_WT", "/tmp/seed-")
 
 
 def sh(cmd, cwd=None, timeout=3600):
@@ -29,7 +31,7 @@ def seed_dir(pid, x):
     kept = os.path.join(VERIF, "seeded", "%s_%s" % (pid, x))
     if os.path.exists(os.path.join(kept, "patch.diff")):
         return kept
-    return "/tmp/seed-out/%s/%s" % (pid, x)
+    return "%s/%s/%s" % (SEED_OUT, pid, x)
 
 
 def features_for(sd):
@@ -94,7 +96,7 @@ def apply_patch(repo, patch):
 
 def verify(pid, x):
     sd = seed_dir(pid, x)
-    wt = "/tmp/seed-%s" % pid
+    wt = "%s%s" % (SEED_WT, pid)
     head = sh(["git", "rev-parse", "HEAD"], cwd="/repo")[1].strip()
     if not os.path.exists(wt):
         sh(["git", "worktree", "add", "--detach", wt, head], cwd="/repo")
@@ -123,8 +125,8 @@ def verify(pid, x):
     sh("git checkout -q -- . && git clean -fdq -e target", cwd=wt)
     res["confirmed"] = bool(res.get("demo_passes_without_patch") and res.get("patch_applies") and res.get("suite_passes_with_patch") and res.get("demo_fails_with_patch"))
     print(json.dumps(res, indent=1))
-    os.makedirs("/tmp/seed-out/%s/%s" % (pid, x), exist_ok=True)
-    json.dump(res, open(os.path.join("/tmp/seed-out/%s/%s" % (pid, x), "verified.json"), "w"), indent=1)
+    os.makedirs("%s/%s/%s" % (SEED_OUT, pid, x), exist_ok=True)
+    json.dump(res, open(os.path.join("%s/%s/%s" % (SEED_OUT, pid, x), "verified.json"), "w"), indent=1)
     return 0 if res["confirmed"] else 1
 
 
@@ -149,14 +151,14 @@ def detect(pid, x, props):
     finally:
         sh("git reset -q --hard HEAD", cwd="/repo")
     print(json.dumps(results, indent=1))
-    out = os.path.join("/tmp/seed-out/%s/%s" % (pid, x), "detected.json")
+    out = os.path.join("%s/%s/%s" % (SEED_OUT, pid, x), "detected.json")
     os.makedirs(os.path.dirname(out), exist_ok=True)
     json.dump(results, open(out, "w"), indent=1)
     return 0 if any(r["exit"] == 1 for r in results.values()) else 1
 
 
 def keep(pid, x):
-    sd = "/tmp/seed-out/%s/%s" % (pid, x)
+    sd = "%s/%s/%s" % (SEED_OUT, pid, x)
     dst = os.path.join(VERIF, "seeded", "%s_%s" % (pid, x))
     os.makedirs(dst, exist_ok=True)
     shutil.copy(os.path.join(sd, "patch.diff"), dst)
